@@ -41,15 +41,28 @@ theorem C47_fq_blocks_inline_decisions {s : St} (t S : Nat) (hfq : (s.top t).fq 
     step s t .inlinePool = none ∧ step s t (.tsInline S) = none := by
   simp [step, hfq]
 
-/-- `inline0` requires a pool without threads or a pool that is being resized -/
+/-- `inline0` requires a pool without threads, a pool that is being resized, or a bulk frame already
+marked `zeroPath`: `ThreadPool::scheduleBulkImpl` reads `numThreads_` once at the start of the call
+and then runs every task of that call inline, even if the pool has been resized meanwhile -/
 theorem C47_inline0_needs_no_threads {s s' : St} {t : Nat} (hs : step s t .inline0 = some s') :
-    s.nThreads = 0 ∨ s.resizing = true := by
-  obtain ⟨f, rest, _, hst⟩ := step_inv' hs
+    s.nThreads = 0 ∨ s.resizing = true ∨ (s.top t).zeroPath = true := by
+  obtain ⟨f, rest, hs0, hst⟩ := step_inv' hs
+  rw [top_eq hs0]
   cases hst with
   | inline0 hk hp hn => exact hn
 
+/-- in every reachable state a frame marked `zeroPath` is a bulk-submission frame whose tag is
+already cleared: the mark is only ever set by an `inline0` on a bulk frame, which clears `fq` in
+the same step, and no event sets the tag of an existing frame.  Hence the `zeroPath` disjunct of
+`C47_inline0_needs_no_threads` never applies to a frame that still carries the tag. -/
+theorem C47_zeroPath_only_after_fq_cleared {s : St} (h : Reach s) (t : Nat) (f : Frame)
+    (hf : f ∈ s.stack t) (hz : f.zeroPath = true) : f.fq = false ∧ f.kind = .bulk :=
+  (Inv.reach h).zp t f hf hz
+
 /-- the only event that turns the tag of a frame from true to false is `inline0`, acting on the
-top frame of its thread, in a pool without threads or being resized.  A frame is identified by its
+top frame of its thread, in a pool without threads or being resized (the `zeroPath` disjunct of
+`C47_inline0_needs_no_threads` is impossible here: a frame that still carries the tag is not marked,
+`C47_zeroPath_only_after_fq_cleared`).  A frame is identified by its
 thread and its depth `k` (position from the bottom of the stack); `frameAt (s.stack t') k` is the
 frame at that depth. -/
 theorem C47_fq_cleared_only_without_threads {s s' : St} {t : Nat} {e : Ev} (h : Reach s)
@@ -58,7 +71,7 @@ theorem C47_fq_cleared_only_without_threads {s s' : St} {t : Nat} {e : Ev} (h : 
     (hq : f.fq = true) (hq' : f'.fq = false) :
     e = .inline0 ∧ t' = t ∧ k + 1 = (s.stack t).length ∧ (s.nThreads = 0 ∨ s.resizing = true) := by
   obtain ⟨f0, rest, hs0, hst⟩ := step_inv' hs
-  exact fq_cleared_shape (Inv.reach h).bot hs0 hst.shape t' k f f' h1 h2 hq hq'
+  exact fq_cleared_shape (Inv.reach h).bot (Inv.reach h).zp hs0 hst.shape t' k f f' h1 h2 hq hq'
 
 /-- top-frame form: if an event leaves the depth of the stack unchanged and the tag of the top
 frame goes from true to false, the event is `inline0` -/
@@ -96,5 +109,31 @@ example : (run (St.init 0)
     [(0, .callResize), (0, .ctor 0), (0, .retResize), (0, .callSched 0 7 true), (0, .inline0),
      (0, .begin_ 7), (0, .end_ 7), (0, .retSched)]).map (fun s => (s.begun, s.ended))
     = some ([7], [7]) := rfl
+
+/-- a bulk call that found the pool without threads keeps running its tasks inline after the pool
+has been resized meanwhile by another thread (`zeroPath`); the frame is marked and without tag -/
+example : (run (St.init 0)
+    [(0, .callBulk 0 true), (0, .gen 1), (0, .inline0), (0, .begin_ 1), (0, .end_ 1),
+     (1, .callResize), (1, .ctor 2), (1, .retResize),
+     (0, .gen 2), (0, .inline0)]).map
+      (fun s => (s.nThreads, s.resizing, (s.top 0).zeroPath, (s.top 0).fq, (s.top 0).kind == .bulk))
+    = some (2, false, true, false, true) := rfl
+
+example : (run (St.init 0)
+    [(0, .callBulk 0 true), (0, .gen 1), (0, .inline0), (0, .begin_ 1), (0, .end_ 1),
+     (1, .callResize), (1, .ctor 2), (1, .retResize),
+     (0, .gen 2), (0, .inline0), (0, .begin_ 2), (0, .end_ 2), (0, .retBulk)]).map
+      (fun s => (s.begun, s.ended)) = some ([2, 1], [2, 1]) := rfl
+
+/-- a bulk call that starts on a pool with threads cannot take `inline0`, nor can a later single
+submission of the thread whose bulk call was marked -/
+example : (run (St.init 0)
+    [(1, .callResize), (1, .ctor 2), (1, .retResize),
+     (0, .callBulk 0 true), (0, .gen 1), (0, .inline0)]).isSome = false := rfl
+
+example : (run (St.init 0)
+    [(0, .callBulk 0 true), (0, .gen 1), (0, .inline0), (0, .begin_ 1), (0, .end_ 1), (0, .retBulk),
+     (1, .callResize), (1, .ctor 2), (1, .retResize),
+     (0, .callSched 0 3 true), (0, .inline0)]).isSome = false := rfl
 
 end Dispenso.Sched
